@@ -143,7 +143,7 @@ def run_impl(cases, timeout=120):
             # the whole group ran out of time (a loaded machine, or one run that really hangs): the last block may be
             # cut short; every run without a complete block is repeated ON ITS OWN with a generous cap, and only a run
             # that does not return then is reported as not terminating
-            complete = [b for b in blocks if re.search(r"(?m)^ref ", b) or re.search(r"(?m)^panic", b)]
+            complete = [b for b in blocks if re.search(r"(?m)^end\s*$", b)]
             blocks = complete
             for j, i in enumerate(idxs):
                 if j < len(blocks):
@@ -159,6 +159,9 @@ def run_impl(cases, timeout=120):
                     obs[i] = parse_block(bs[0]) if bs else {"error": "rc=%d" % q.returncode if q.returncode else "no-output"}
                 except subprocess.TimeoutExpired:
                     obs[i] = {"error": "timeout"}
+        if err != "timeout":
+            # a process that died on its own may also have left its last block cut short
+            blocks = [b for b in blocks if re.search(r"(?m)^end\s*$", b)]
         for j, i in enumerate(idxs):
             if obs[i] is not None:
                 continue
